@@ -1043,3 +1043,13 @@ add("C08", "fold-receiver-compared-by-last-name", CSE,
 add("C08", "benign-fold-receiver-deep-equals", CSE,
     [("        return left_call.func.value.value == right_call.func.value.value", "        return left_call.func.value.deep_equals(right_call.func.value)")],
     "silent")
+CFGP = "codemodder/project_analysis/file_parsers/setup_cfg_file_parser.py"
+add("C14", "setupcfg-parser-lenient-writer-strict", CFGP,
+    [("        config = configparser.ConfigParser()", "        config = configparser.ConfigParser(strict=False)")],
+    "fire", "R-MANIFEST-SIBLINGS", "same-options")
+add("C14", "setupcfg-writer-without-interpolation-only", CFGW,
+    [("        config = configparser.ConfigParser()", "        config = configparser.ConfigParser(interpolation=None)")],
+    "fire", "R-MANIFEST-SIBLINGS", "same-options")
+add("C14", "setuppy-writer-follows-names", SPW,
+    [("            ) and matchers.matches(arg.value, matchers.List()):\n                new = self.add_dependencies_to_arg(arg)", "            ) and matchers.matches(self.resolve_expression(arg.value), matchers.List()):\n                new = self.add_dependencies_to_arg(arg)")],
+    "fire", "R-MANIFEST-SIBLINGS", "name-resolution-agrees")
